@@ -78,7 +78,9 @@ def cmake_text(rel, rng=None, rich=False):
     t = f"#[[[\n# Documented function of {rel}\n#\n# :param x: a parameter\n#]]\nfunction(fn_{ident} x)\nendfunction()\n"
     if rich:
         t += f"#[[[\n# A variable of {rel}\n#]]\nset(VAR_{ident} \"v\" 2)\nmacro(mc_{ident})\nendmacro()\n" \
-             f"option(OPT_{ident} \"help\" ON)\n"
+             f"option(OPT_{ident} \"help\" ON)\n" \
+             f"#[[[\n# Where to get it (a value without a single blank, wider than a narrow terminal).\n#]]\n" \
+             f"set(URL_{ident} \"https://example.org/downloads/releases/2026/10/03/a-very-long-file-name-without-blanks-{ident}.tar.gz\")\n"
     return t
 
 
